@@ -50,7 +50,10 @@ def run_case(case, rec):
     decls, node, V = case["decls"], case["node"], case["V"]
     D = R.Decls(decls)
     fam = case["family"]
-    rec.case({"d": decls, "n": node, "V": V}, nontrivial=A.n_ops(node) >= 2)
+    B.SHARE[0] = bool(case.get("share"))
+    if B.SHARE[0]:
+        fam = "shared-subexpressions"
+    rec.case({"d": decls, "n": node, "V": V, "s": B.SHARE[0]}, nontrivial=A.n_ops(node) >= 2)
     used = R.ref_vars(D, node)
     try:
         b = B.Builder(decls)
@@ -145,8 +148,14 @@ def run_case(case, rec):
 
 def run(ctx, rec):
     rng = ctx.rng
+    k = 0
     for case in X.directed_cases(rng, ctx.mine, vrels=["superset", "superset_permuted"]):
         run_case(case, rec)
+        k += 1
+        if k % 2 == 0:
+            sc = X.shared_case(rng, case, form=(k // 2) % len(X.DAG_FORMS))
+            if sc is not None:
+                run_case(sc, rec)
     n = 0
     while n < N_RANDOM[ctx.tier] and not rec.out_of_time():
         n += 1
@@ -155,6 +164,10 @@ def run(ctx, rec):
             rec.events["no-regular-point-or-no-vars"] += 1
             continue
         run_case(case, rec)
+        if n % 6 == 0:
+            sc = X.shared_case(rng, case)
+            if sc is not None:
+                run_case(sc, rec)
 
 
 def replay(w, rec):
